@@ -252,13 +252,13 @@ impl World {
     }
 
     /// Set the allocation debt to the class value before a debt-driven call.
-    pub fn norm(&self, class: u8) {
+    pub fn norm(&self, class: u8) -> VResult {
         if self.sc.natural {
-            return;
+            return Ok(());
         }
         let m = &self.metrics;
         if m.total_gc_count() == 0 {
-            return;
+            return Ok(());
         }
         m.adjust_debt(1.0e6);
         let d = m.allocation_debt();
@@ -268,7 +268,21 @@ impl World {
                 1 => m.adjust_debt(-d - 1.0),
                 _ => m.adjust_debt(HUGE - d),
             }
+            let want = match class {
+                0 => EPS,
+                1 => 0.0,
+                _ => HUGE,
+            };
+            let got = m.allocation_debt();
+            if (got - want).abs() > 1e-6 * (1.0 + want) {
+                viol!("c10.adjust_exact", "a positive debt of {d} adjusted by {} reads {got} instead of {want}", want - d);
+            }
+        } else {
+            // (these scopes never set a pacing with an unbounded sleep allowance, and every adjustment the harness
+            // made so far left the debt at EPS, zero or HUGE: an explicit adjustment of 1e6 cannot vanish)
+            viol!("c10.adjust_ineffective", "adjust_debt(1e6) on an arena holding {} allocations left allocation_debt() at {d}", m.total_gc_count());
         }
+        Ok(())
     }
 
     pub fn apply_inner(&mut self, op: Op, ret_some: &mut Option<bool>) -> VResult {
@@ -948,18 +962,18 @@ impl World {
             K::FinQuery | K::FinRes | K::FinResStore | K::FinResInto | K::FinGcRes | K::PFin | K::FinResLeaf | K::FinResChild => return self.finalize(op),
             // ------------------------------------------------------------------ collector
             K::CycleStep => {
-                self.norm(op.a);
+                self.norm(op.a)?;
                 let a = self.arena_mut();
                 guarded("Arena::cycle_debt", || a.cycle_debt())?;
             }
             K::MarkStep => {
-                self.norm(op.a);
+                self.norm(op.a)?;
                 let a = self.arena_mut();
                 let Caught::Done(r) = guarded("Arena::mark_debt", || a.mark_debt().is_some())? else { unreachable!() };
                 *ret_some = Some(r);
             }
             K::Step => {
-                self.norm(op.a);
+                self.norm(op.a)?;
                 let a = self.arena_mut();
                 guarded("Arena::collect_debt", || a.collect_debt())?;
             }
@@ -989,7 +1003,7 @@ impl World {
             // ------------------------------------------------------------------ faults
             K::Fault => {
                 if op.a >= 2 {
-                    self.norm(2);
+                    self.norm(2)?;
                 }
                 arm_fault(op.b as u32);
                 let a = self.arena.as_mut().unwrap();
@@ -1066,7 +1080,8 @@ impl World {
                 let before = self.metrics.allocation_debt();
                 self.metrics.adjust_debt(x);
                 let after = self.metrics.allocation_debt();
-                if before > 0.0 && after > 0.0 {
+                if before > 0.0 && (after > 0.0 || before + x > 1e-6) {
+                    // (a positive debt is the raw balance itself: raw + x is what must be reported while that is positive)
                     let err = (after - before - x).abs();
                     if err > 1e-9 * (1.0 + before.abs().max(x.abs())) {
                         viol!("c10.adjust_exact", "adjust_debt({x}) moved a positive debt from {before} to {after}");
@@ -1110,7 +1125,7 @@ impl World {
         let (d0, f0) = (drops_len(), talloc::gc_frees_len());
         let r = guarded("finish_marking + MarkedArena::finalize", || -> VResult {
             let marked = if op.k == K::FinQuery && op.a == 1 {
-                this.norm(1);
+                this.norm(1)?;
                 arena.mark_debt()
             } else {
                 arena.finish_marking()
